@@ -287,6 +287,15 @@ func famRawSrv(w *World, c *Case, rng *rand.Rand) {
 		} else if ch.Err() == nil {
 			w.Violate("C09", "client-tunnel-level-violation-nil-error", "raw server deviation %s ended the tunnel but Err() is nil", kind)
 		}
+		// both ends observe the end: the peer must see the carrier stream finish
+		// (half-close on a forward tunnel, the serving call's return on a reverse one)
+		rs.mu.Lock()
+		peerSaw := rs.RecvDone
+		rs.mu.Unlock()
+		if tunnelDead && !peerSaw {
+			w.Violate("C04", "aborted-tunnel-not-visible-to-peer", "raw server deviation %s: the client aborted the tunnel (%v) but the carrier stream was neither half-closed nor ended: the peer's serving call would never return", kind, ch.Err())
+		}
+		w.Stat("rawsrv_abort_visibility_checked", 1)
 	} else {
 		if tunnelDead {
 			w.Violate("C09", "client-stream-level-violation-killed-tunnel", "raw server deviation %s/%s is at most a stream-level violation but the channel is done: %v", kind, shape, ch.Err())
